@@ -168,6 +168,54 @@ theorem msm_zipWith_lin (p q : F) (s : List F) (gL gR : List G) (h : gL.length =
         simp only [List.zipWith_cons_cons, msm_cons_cons, List.map_cons]
         rw [ih gL gR (by simpa using h)]; module
 
+/-- the generators after all folding rounds of the inner-product argument (`p = u⁻¹, q = u` for the `G` side,
+    `p = u, q = u⁻¹` for the `H` side), first challenge first -/
+def foldGens (side : Bool) : List F → List G → List G
+  | [], g => g
+  | u :: us, g =>
+    let n := g.length / 2
+    foldGens side us (List.zipWith (fun l r => (if side then u⁻¹ else u) • l + (if side then u else u⁻¹) • r)
+      (g.take n) (g.drop n))
+
+theorem foldGens_sFold (us : List F) (g : List G) (hg : g.length = 2 ^ us.length) :
+    foldGens true us g = [msm (sFold us) g] := by
+  induction us generalizing g with
+  | nil =>
+    simp only [List.length_nil, pow_zero] at hg
+    match g, hg with
+    | [x], _ => simp [foldGens, sFold]
+  | cons u us ih =>
+    have h2 : g.length / 2 = 2 ^ us.length := by rw [hg, List.length_cons, pow_succ]; omega
+    have hl : (g.take (g.length / 2)).length = 2 ^ us.length := by rw [List.length_take, h2, hg, List.length_cons, pow_succ]; omega
+    have hr : (g.drop (g.length / 2)).length = 2 ^ us.length := by rw [List.length_drop, h2, hg, List.length_cons, pow_succ]; omega
+    unfold foldGens
+    simp only [if_true]
+    rw [ih _ (by rw [List.length_zipWith, hl, hr, min_self])]
+    congr 1
+    rw [msm_zipWith_lin _ _ _ _ _ (hl.trans hr.symm), sFold]
+    conv_rhs => rw [← List.take_append_drop (g.length / 2) g]
+    rw [msm_append _ _ _ _ (by rw [List.length_map, sFold_length, hl])]
+
+theorem foldGens_sFoldInv (us : List F) (g : List G) (hg : g.length = 2 ^ us.length) :
+    foldGens false us g = [msm (sFoldInv us) g] := by
+  induction us generalizing g with
+  | nil =>
+    simp only [List.length_nil, pow_zero] at hg
+    match g, hg with
+    | [x], _ => simp [foldGens, sFoldInv]
+  | cons u us ih =>
+    have h2 : g.length / 2 = 2 ^ us.length := by rw [hg, List.length_cons, pow_succ]; omega
+    have hl : (g.take (g.length / 2)).length = 2 ^ us.length := by rw [List.length_take, h2, hg, List.length_cons, pow_succ]; omega
+    have hr : (g.drop (g.length / 2)).length = 2 ^ us.length := by rw [List.length_drop, h2, hg, List.length_cons, pow_succ]; omega
+    have hlen : (sFoldInv us).length = 2 ^ us.length := by rw [← sFold_reverse, List.length_reverse, sFold_length]
+    unfold foldGens
+    simp only [Bool.false_eq_true, if_false]
+    rw [ih _ (by rw [List.length_zipWith, hl, hr, min_self])]
+    congr 1
+    rw [msm_zipWith_lin _ _ _ _ _ (hl.trans hr.symm), sFoldInv]
+    conv_rhs => rw [← List.take_append_drop (g.length / 2) g]
+    rw [msm_append _ _ _ _ (by rw [List.length_map, hlen, hl])]
+
 end
 
 section
